@@ -1,5 +1,8 @@
 import PySMT.Proofs.C09Lit
 import PySMT.Proofs.C08Table
+import PySMT.Proofs.C09Round
+import PySMT.Proofs.C09DagRound
+import PySMT.Proofs.C07Example
 /-!
 # C09 — print → parse round trips: the property theorems
 
@@ -10,20 +13,71 @@ literally, with what `SmtLibParser` makes of `to_smtlib(f)` for ≈ 1 600 genera
 printers, equivalent command lists for re-serialised scripts, same type/meaning/serialisation-up-to-grouping for the
 human-readable format.
 
-Proved here (token level):
-* `parse_print_id_literals_partial` — **for every value**, an integer (`5`, `(- 5)`), Boolean or string constant is printed
-  to a token sequence that the parser model reads back as the very same constant. `_partial`: the statement of the property
-  for compound terms (`ParsePrintId` below), for the DAG printer, for scripts and for the human-readable format is **not**
-  proved; these are covered by K and S only.
-* `printed_tokens_std` — every operator token of the parser table is the constructor the standard prescribes (shared with
-  C08): the spellings the printers emit (C07: `printerOps_std`) are read back with the constructor they were printed from.
+## What is proved
+
+* `parse_print_id_partial` — **tree printer, compound terms**: for every formula `t` that satisfies C07's `Printable env [] t`
+  (well-typed with canonical payloads, speakable unambiguous names, plain declared sorts, none of F10/F11/F44/F45/F46) and
+  - `mgrNormal t`: `t` is in the formula manager's normal form (no `Not(Not x)`, no `ToReal` of an integer constant, no
+    `Div` by a non-zero constant: what `FormulaManager` returns — the property speaks about formulas of the manager),
+  - `parseOK env ρ t`: every bound variable has a name the parser cannot take for a literal (F16b) or a declared sort, and
+    is the manager's symbol `ρ` of that name (one name, one sort),
+
+  in every parser environment `Γ` that corresponds to `env` (`Agree.Corr env [] Γ`, stated explicitly in
+  `Proofs/C08Agree0.lean`: every declared constant/function/sort of `env` is bound accordingly, `true`/`false` keep their
+  meaning, no bound name is spelled like a literal, no `define-fun`, the logic flag agrees; `Agree.penvOf env` is such an
+  environment whenever `Agree.envOK env`, theorem `penv_corresponds`) and whose formula manager knows only symbols of `ρ`:
+  `readTerm Γ (toSexp t) = ok (unfoldAV t)` — the very same formula, array values as the store chains they are printed as.
+  Operator families covered: Boolean connectives, `ite`, `=`, arithmetic and comparisons, `to_real`, `/` and the constants
+  (negative and rational ones, printed as `(- c)`, `(/ n d)`), all bit-vector operators incl. `extract`, `zero_extend`,
+  `sign_extend`, `rotate_left`, `rotate_right`, `concat`, `bvcomp`, `bv2nat`, the string operators, `select`/`store`/constant arrays/array values,
+  applications of declared functions, `forall`/`exists`.
+  `_partial` only because the exclusions of `Printable` (F10 integer division, F11 `str.to.int`/`int.to.str`, F44 `pow`,
+  F45, F46, parametric sorts) are inherited: every operator family the printer can print for a `Printable` formula is
+  covered.
+* `parse_print_id_penv_partial` — the same in the concrete environment `penvOf env`.
+* `parse_print_id_state_partial` — … and the formula manager is left within `ρ` (no fresh symbol for a bound variable).
+* `parse_printDag_id_partial` — **DAG printer**, quantifier-free formulas (C07's `read_toSexpDag` covers those): the
+  parser's reading of `toSexpDag t` is `unfoldAVw false t` (array values as store chains in argument order). Additional
+  hypotheses `defFree env` (no declared sort is named `.def_k`) and `noRot t` (the side condition of the agreement
+  theorem for rotations is proved for the tree printer's text only). `_partial`: formulas with quantifiers (nested
+  printers) and rotations under the DAG printer are covered by K/S only.
+* `parse_print_id_literals_partial` — Int/Bool/String constants, under the weaker hypotheses of the first round (kept).
+* `printed_tokens_std` — every operator token of the parser table is the constructor the standard prescribes.
+
+Still K/S only: re-serialised scripts (command lists), the human-readable format, DAG with quantifiers or rotations.
 -/
 namespace PySMT.Props.C09
-open PySMT PySMT.Parser PySMT.Printer
+open PySMT PySMT.Parser PySMT.Printer PySMT.Parser.Agree
 
-/-- the full statement for the tree printer (not proved; `unfold` = constant-array literals become store chains) -/
-def ParsePrintId (envOf : Term → PEnv) (unfold : Term → Term) (namesOK : Term → Prop) : Prop :=
-  ∀ t : Term, t.wt = true → namesOK t → readTerm (envOf t) (toSexp t) = .ok (unfold t)
+/-- **print → parse is the identity** (tree printer). -/
+theorem parse_print_id_partial (env : Std.SEnv) (ρ : List (String × Sym)) (Γ : PEnv) (hc : Corr env [] Γ)
+    (hm : MgrLe Γ.mgr ρ) (t : Term) (hP : Printable env [] t = true) (hQ : parseOK env ρ t = true)
+    (hN : mgrNormal t = true) : readTerm Γ (toSexp t) = .ok (unfoldAV t) :=
+  Agree.parse_print_id env ρ Γ hc hm t hP hQ hN
+
+/-- … in the environment the declarations of `env` build. -/
+theorem parse_print_id_penv_partial (env : Std.SEnv) (henv : envOK env = true) (ρ : List (String × Sym)) (t : Term)
+    (hP : Printable env [] t = true) (hQ : parseOK env ρ t = true) (hN : mgrNormal t = true) :
+    readTerm (penvOf env) (toSexp t) = .ok (unfoldAV t) :=
+  Agree.parse_print_id_penv env henv ρ t hP hQ hN
+
+/-- … and the formula manager stays within `ρ`. -/
+theorem parse_print_id_state_partial (env : Std.SEnv) (ρ : List (String × Sym)) (Γ : PEnv) (hc : Corr env [] Γ)
+    (hm : MgrLe Γ.mgr ρ) (t : Term) (hP : Printable env [] t = true) (hQ : parseOK env ρ t = true)
+    (hN : mgrNormal t = true) : ∃ σ', readTermSt Γ (toSexp t) = .ok (unfoldAV t, σ') ∧ MgrLe σ' ρ :=
+  Agree.parse_print_id_st env ρ Γ hc hm t hP hQ hN
+
+/-- **print → parse is the identity** (DAG printer, quantifier-free formulas). -/
+theorem parse_printDag_id_partial (env : Std.SEnv) (ρ : List (String × Sym)) (Γ : PEnv) (hc : Corr env [] Γ)
+    (hm : MgrLe Γ.mgr ρ) (hdf : defFree env) (t : Term) (hP : Printable env [] t = true) (hq : noQuant t = true)
+    (hnr : noRot t = true) (hQ : parseOK env ρ t = true) (hN : mgrNormal t = true) :
+    readTerm Γ (toSexpDag t) = .ok (unfoldAVw false t) :=
+  Agree.parse_printDag_id env ρ Γ hc hm hdf t hP hq hnr hQ hN
+
+/-- the parser environment built from the declarations of `env` corresponds to `env` -/
+theorem penv_corresponds (env : Std.SEnv) (h : envOK env = true) (ρ : List (String × Sym)) :
+    Corr env [] (penvOf env) ∧ MgrLe (penvOf env).mgr ρ :=
+  ⟨corr_penvOf env h, mgrLe_penvOf env ρ⟩
 
 /-- **Constants round-trip** (token level), for every integer, Boolean and string value, in every environment in which
 no symbol is spelled like a numeral and `true`/`false` keep their meaning. -/
@@ -41,7 +95,35 @@ theorem printed_tokens_std :
     Gen.ParserOps.table.all (fun e => Table.knownNonStd.contains e.1 || Table.expectedOf e.1 == some e.2) = true :=
   Table.table_std
 
-/-! ## non-vacuity: the initial environment of the parser satisfies the hypotheses -/
+/-! ## non-vacuity -/
+
+/-- the environment with the one declared constant `|x y| : Int` of C07's example, logic `QF_LIA` -/
+def envEx : Std.SEnv := { logic := "QF_LIA", funs := [C07.x] }
+
+/-- all hypotheses of the round-trip theorems hold for `t1 = (<= |x y| (- 5))` (C07's example) in `envEx` -/
+example : envOK envEx = true ∧ Printable envEx [] C07.t1 = true ∧ parseOK envEx [] C07.t1 = true ∧
+    mgrNormal C07.t1 = true ∧ noQuant C07.t1 = true ∧ noRot C07.t1 = true :=
+  ⟨by decide, C07.pr_t1 envEx (by decide) (by decide),
+   by simp [C07.t1, Term.sym, Term.int, parseOK, parseNodeOK],
+   by simp [C07.t1, Term.sym, Term.int, mgrNormal, rootNorm], C07.noQuant_t1,
+   by simp [C07.t1, Term.sym, Term.int, noRot]⟩
+
+/-- … hence the conclusion is about a real round trip: `(<= |x y| (- 5))` is read back as `t1` itself -/
+example : readTerm (penvOf envEx) (toSexp C07.t1) = .ok (unfoldAV C07.t1) :=
+  parse_print_id_penv_partial envEx (by decide) [] C07.t1 (C07.pr_t1 envEx (by decide) (by decide))
+    (by simp [C07.t1, Term.sym, Term.int, parseOK, parseNodeOK])
+    (by simp [C07.t1, Term.sym, Term.int, mgrNormal, rootNorm])
+
+/-- `defFree` holds when no sort is declared -/
+example : defFree envEx := fun k => ⟨rfl, rfl⟩
+
+/-- the exclusions are real: a term that is not in the manager's normal form is not `mgrNormal` -/
+example : mgrNormal (.node .not [.node .not [Term.tt] .none] .none) = false := by
+  simp [mgrNormal, rootNorm, notNorm, Term.tt]
+
+/-- … and a rotation is not `noRot` (DAG theorem only) -/
+example : noRot (.node .bvRol [Term.bvc 1 8] (.ints [8, 3])) = false := by
+  simp [noRot, Term.bvc]
 
 example : lookup "true" PEnv.init.binds = some (.term Term.tt) ∧ lookup "false" PEnv.init.binds = some (.term Term.ff)
     ∧ PEnv.init.intArith.getD true = true := by
